@@ -1,11 +1,11 @@
 """Per-property search plans (bounds are case counts and generated sizes; the
 budget only stops generation, it never decides anything)."""
 
-MINIMISE_RUNS = 150
+MINIMISE_RUNS = 60
 
 DEFAULT = {
-    "quick": dict(configs=["asan"], types="sdcz", shards=4, cases=6000, max_size=600, budget=40, min_nontrivial=50, alarm=120),
-    "thorough": dict(configs=["asan"], types="sdcz", shards=4, cases=60000, max_size=1500, budget=420, min_nontrivial=500, alarm=300),
+    "quick": dict(configs=["asan"], types="sdcz", shards=4, cases=6000, max_size=600, budget=40, min_nontrivial=50, alarm=30),
+    "thorough": dict(configs=["asan"], types="sdcz", shards=4, cases=60000, max_size=1500, budget=420, min_nontrivial=500, alarm=60),
 }
 
 FUZZ = dict(runs=400000, workers=16, max_len=1500, max_time=420)
@@ -17,8 +17,8 @@ OVERRIDE = {
     "C05": {"thorough": dict(configs=VB)}, "C12": {"thorough": dict(configs=VB)}, "C13": {"thorough": dict(configs=VB)}, "C14": {"thorough": dict(configs=VB, fuzz=FUZZ)},
     "C07": {"thorough": dict(configs=I64)}, "C17": {"thorough": dict(configs=I64)}, "C19": {"thorough": dict(configs=I64, fuzz=FUZZ)}, "C06": {"thorough": dict(configs=VB, fuzz=FUZZ)}, "C15": {"thorough": dict(configs=I64, fuzz=FUZZ)},
     "C16": {"thorough": dict(fuzz=FUZZ)},
-    "C09": {"quick": dict(types="d", shards=6, configs=["tsan", "asan"], cases=1500, budget=45), "thorough": dict(types="d", shards=8, configs=["tsan", "asan"], cases=20000, budget=600)},
-    "C08": {"quick": dict(cases=1500, budget=50), "thorough": dict(cases=20000, budget=600, configs=["asan", "asan-i64"])},
+    "C09": {"quick": dict(types="d", shards=6, configs=["tsan", "asan"], cases=1500, budget=45, alarm=120), "thorough": dict(types="d", shards=8, configs=["tsan", "asan"], cases=20000, budget=600)},
+    "C08": {"quick": dict(cases=1500, budget=50, alarm=180), "thorough": dict(cases=20000, budget=600, configs=["asan", "asan-i64"], alarm=300)},
     "C10": {"quick": dict(types="d", shards=16), "thorough": dict(types="d", shards=8, configs=["asan", "asan-i64"])},
 }
 
